@@ -80,6 +80,10 @@ pub fn install_panic_hook() {
             let bt = std::backtrace::Backtrace::force_capture().to_string();
             let frame = first_repo_frame(&bt);
             let node = world::current_node();
+            let harness_bug = location.starts_with("src/") || location.contains("/verif/");
+            if harness_bug {
+                eprintln!("HARNESS PANIC {message} at {location}");
+            }
             if std::env::var_os("VERIF_PANIC_TRACE").is_some() {
                 eprintln!("PANIC node={node} {message} at {location}\n{bt}");
             }
